@@ -53,3 +53,17 @@ claim('C15', 'proof',
       "Exit-path ordering obligation (the reservation flag is released only after my heartbeat generation died), only SetID creates a generation, GetHeartBeat returns a weak reference to my live generation.",
       TB + IDN + "The cross-thread conclusion (when I am given id k every earlier heartbeat for k is expired) is the same obligation seen from the other thread (rely/guarantee symmetry, paper argument).",
       "CBMC code contracts + ghost heartbeat generations; replay through the atomic-interposition scheduler", "3 C15")
+
+EPN = "Slots are a block of symbolic length K <= 2^10; the coordinator sees every untracked slot as arbitrary (expired, unpinned, or pinning a value <= current epoch); std::vector<size_t> is abstract (size, membership of two tracked values, max/min/last); sort/unique/erase are assumed library contracts. "
+claim('C04', 'proof',
+      "Contracts of EnterEpoch / EpochGuard / CreateEpochGuard / CollectProtectedEpochs (loop invariant over the symbolic capacity) / ForwardGlobalEpoch with one skolemised tracked guard: its epoch is in the list published for the new epoch and the stored minimum does not exceed it; the C15 exit-order obligation of IDManager is part of this property's obligation set.",
+      TB + EPN + "List-node chain operations are replaced by contracts inside ForwardGlobalEpoch (checked bounded under C20).", "CBMC code contracts with skolemised tracked guard", "3 C04")
+claim('C16', 'proof',
+      "Step guarantees on the two epoch words (global epoch written only by the coordinator, +1 per call, release order; min <= current at its store), LeaveEpoch / guard destruction unpin, quiescent case: the published list is exactly {new, new-1} and min = new-1; constructor state checked on the extracted constructor.",
+      TB + EPN, "CBMC code contracts + step assertions in the atomic stubs", "3 C16")
+claim('C17', 'other',
+      "Proved: every pinned epoch is a value of the global epoch read in the same call, the list published for an epoch is strictly descending with first element = that epoch and contains the previous one; obligation 'the node of my pinned epoch is still linked at lookup time' under the coordinator rely (fails on the two-step EnterEpoch: recorded known finding, replayed with the interposition scheduler). Chain lookup/retirement: bounded (<= 5 nodes).",
+      TB + EPN, "CBMC code contracts + rely on coordinator steps; bounded chain groups", "3 C17")
+claim('C20', 'other',
+      "Proved: exact contents of the published list (two tracked-value inclusions, strict descent from the assumed sort/unique contracts, min = last). Bounded (labelled, <= 5 nodes, <= 6 values, unwind 8 with unwinding assertions): RemoveOutDatedLists keeps exactly head + nodes holding a protected epoch + tail and deletes the rest once, memory safety, destructor frees all nodes, lookup returns the right node.",
+      TB + EPN + "CBMC contracts have no unbounded linked-structure predicate, hence the bounded part.", "CBMC code contracts + bounded unwinding of the real list code", "3 C20")
